@@ -713,6 +713,12 @@ func (c *evalCtx) checkImageV(im *image, lo, loV int, rec *stats.Recorder, nontr
 		} else {
 			labels = append(labels, "outcome_prefix")
 		}
+		if verr != nil && si == 0 {
+			// production calls ValidSnapshotEntries first (node/raft.go startRaft) and gives up on its
+			// error; an image that Open + ReadAll (+ Repair) read back must not be refused there
+			r.w.Close()
+			h.fail(c.t, im, s, "ValidSnapshotEntries fails on an image that Open / ReadAll / Repair read back as a durable prefix: the node would not start although the log is intact", verr.Error(), "no error (it is the first call of the restart sequence)")
+		}
 		if p == hi {
 			labels = append(labels, "prefix_is_everything_written")
 		}
